@@ -601,6 +601,18 @@ namespace {
                   auto e2 = derived("template_result"); e2.set("same", &it.result() == &it.mapping().result()); std::cout << vj::dump(e2) << "\n";
                }
             }
+         {  // a where-expression made over a region: its attendant declarations (second()) are the bindings of that region
+            auto w = lx.make_where(*st.unit.global_region());
+            w->result = lx.make_phantom();
+            const ipr::Where& iw = *w;
+            for (int round = 0; round < 3; ++round) {
+               auto ev = derived("where_attendant");
+               ev.set("same", static_cast<const void*>(&iw.second()) == static_cast<const void*>(&w->region.bindings())
+                              and static_cast<const void*>(&iw.attendant()) == static_cast<const void*>(&iw.second()));
+               std::cout << vj::dump(ev) << "\n";
+               w->region.declare_var(st.name(), lx.int_type());
+            }
+         }
          {  // parameter: default_value() is initializer(), absent and present
             auto m = lx.make_mapping(*st.unit.global_region(), ipr::Mapping_level{0});
             auto p = m->param(st.name(), lx.int_type());
